@@ -96,6 +96,8 @@ def generate(tier):
                     mo = b["max_order_lowest"]
                 elif c1 == c2:
                     mo = b["max_order_second"]
+                    if tier == "quick" and variant in ("ip", "ea"):
+                        mo = 2      # cheap (< 20 s in the library)
                 else:
                     mo = b["max_order_coupling"]
                 if variant in ("dip", "dea") and tier == "quick":
